@@ -25,13 +25,14 @@ func VerifC03GroupBy() {
 		spec.KeyCols = append(spec.KeyCols, i)
 	}
 
-	var in []execution.Record
+	var in, net []execution.Record
 	if retr == 1 {
-		in = vx.NDChangelog("t", n, nkeys+1)
+		in, net = NDChangelog("t", n, nkeys+1)
 	} else {
 		for _, row := range vx.NDTable("t", n, nkeys+1) {
 			in = append(in, execution.Record{Values: row})
 		}
+		net = in
 	}
 
 	restrictVals(in, spec.ValCol, zzverif.Param("VDOM"))
@@ -43,7 +44,7 @@ func VerifC03GroupBy() {
 		zzverif.Assert(err == nil, "no-error")
 		outS = sink.Records()
 		zzverif.Reach("simple-ran")
-		zzverif.Assert(spec.MatchesReference(in, outS), "simple-matches-reference")
+		spec.AssertMatches(net, outS, "simple")
 	}
 	if impl == 1 || impl == 2 {
 		sink := &vx.Sink{}
@@ -51,7 +52,7 @@ func VerifC03GroupBy() {
 		zzverif.Assert(err == nil, "no-error")
 		outC = sink.Records()
 		zzverif.Reach("custom-ran")
-		zzverif.Assert(spec.MatchesReference(in, outC), "custom-eos-matches-reference")
+		spec.AssertMatches(net, outC, "custom-eos")
 		zzverif.Assert(validChangelog(outC), "custom-output-changelog-valid")
 	}
 	if impl == 2 {
